@@ -22,7 +22,8 @@ nget    read  box.next          (at `while self.next.next is None`, the re-check
                                  lock, and `self.next = box.next`)
 nset    self.next.next = box    (link the new box BEFORE putting it into the window)
 bacq / brel   `with box.lock:`
-inc     box.n += 1   and the test `box.n == n_forks`
+inc     box.n += 1
+ncmp    read  box.n             (the test `box.n == n_forks`, a line of its own)
 get     buffer.get()            (the last fork to consume a box pops the window)
 recv / exc / stop   `__next__` returned an element / raised the source's exception / raised
                     StopIteration to the consumer
@@ -61,7 +62,7 @@ inductive Fin where
 inductive Pc where
   | idle | chkHead | hLoop | hAcq | hChk | hPull | hPut | hSet | hRel | hRelStop | hNext
   | wLoop | wAcq | wChk | wPull | wLink | wPut | wRel
-  | bAcq | bInc | bGet | bRel | adv
+  | bAcq | bInc | bCmp | bGet | bRel | adv
   | ret (j : Nat) | retExc | retStop | done
   deriving DecidableEq, Repr
 
@@ -88,7 +89,7 @@ structure State where
 
 inductive Kind where
   | call | hget | acqOk | acqFail | pull | srcEnd | srcExc | put | hset | rel
-  | nget | nset | bacq | inc | get | brel | recv | exc | stop
+  | nget | nset | bacq | inc | ncmp | get | brel | recv | exc | stop
   deriving DecidableEq, Repr
 
 structure Act where
@@ -107,7 +108,7 @@ def isExc (c : Cfg) (j : Nat) : Bool := decide (c.len ≤ j)
 
 /-- fork `fk` is inside `with box.lock:` of box `j` -/
 def holdsBox (fk : Fork) (j : Nat) : Bool :=
-  fk.cur == some j && (fk.pc == .bInc || fk.pc == .bGet || fk.pc == .bRel)
+  fk.cur == some j && (fk.pc == .bInc || fk.pc == .bCmp || fk.pc == .bGet || fk.pc == .bRel)
 
 /-- no fork other than `f` is inside `with box.lock:` of box `j` -/
 def boxFree (c : Cfg) (s : State) (f j : Nat) : Bool :=
@@ -207,8 +208,12 @@ def stepF (c : Cfg) (s : State) (f : Nat) (fk : Fork) : Kind → Option State
   | .inc =>
     match fk.cur, fk.pc with
     | some j, .bInc =>
-      some { setFork s f { fk with pc := if s.cnt j + 1 = c.n then .bGet else .bRel, inc := fk.inc + 1 } with
+      some { setFork s f { fk with pc := .bCmp, inc := fk.inc + 1 } with
              cnt := fun i => if i = j then s.cnt j + 1 else s.cnt i }
+    | _, _ => none
+  | .ncmp =>
+    match fk.cur, fk.pc with
+    | some j, .bCmp => some (setFork s f { fk with pc := if s.cnt j = c.n then .bGet else .bRel })
     | _, _ => none
   | .get =>
     if s.popped < s.put then
@@ -243,7 +248,7 @@ instance (c : Cfg) (s : State) : Decidable (Final c s) := by unfold Final; exact
 
 def allKinds : List Kind :=
   [.call, .hget, .acqOk, .acqFail, .pull, .srcEnd, .srcExc, .put, .hset, .rel,
-   .nget, .nset, .bacq, .inc, .get, .brel, .recv, .exc, .stop]
+   .nget, .nset, .bacq, .inc, .ncmp, .get, .brel, .recv, .exc, .stop]
 
 /-- the timed lock retry loop: re-reading the loop condition while it is still unmet and the
     timed-out acquire.  These are the only steps that do not make progress (stutter steps). -/
